@@ -269,9 +269,10 @@ main(int argc, char *argv[])
 			memset(big, 'm', sizeof(big) - 1);
 			ovni_attr_set_str("verif.big", big);
 		} else if (op[0] == 'a' && op[1] == 'c') {
-			/* a machine with many CPUs */
+			/* a machine with many CPUs, the process pinned to physical CPUs that do not start at its logical
+			 * index (index i is physical CPU i + 2, so indices and physical ids overlap) */
 			for (int i = 1; i <= 300; i++)
-				ovni_add_cpu(i, 1000 - i);
+				ovni_add_cpu(i, i + 2);
 		} else if (op[0] == 'c' && op[1] == 'd') {
 			/* the program changes its working directory (nothing the tracing protocol forbids) */
 			mkdir("elsewhere", 0755);
